@@ -442,6 +442,12 @@ def run(ctx):
     # the exit event, exit at now + duration; shared with C07.R4)
     from .C07 import r4_idle_path
     r4_idle_path(ctx, rule='C08.R9')
+    # (R11) a message in transit is dropped only for the module whose gate it is AT, tested when it is there (shared with C09.R2): testing
+    # the owner of the gate it is about to enter drops messages for a module that is up again by the time they arrive
+    from .C09 import r2_transit_guard, flush_before_shutdown
+    r2_transit_guard(ctx, rule='C08.R11')
+    # (R12) a message sent in the handler that requests the shutdown still leaves (shared with C09.R3)
+    flush_before_shutdown(ctx, 'C08.R12')
     r1_cross_wiring(ctx)
     r2_next_hop(ctx)
     r3_entry_slot(ctx)
